@@ -522,7 +522,7 @@ impl Property for P {
     }
     fn cases(tier: Tier) -> u64 {
         match tier {
-            Tier::Quick => 25_000,
+            Tier::Quick => 80_000,
             Tier::Thorough => 1_000_000,
         }
     }
